@@ -24,7 +24,7 @@ MANIFEST_INFO = {
     "engine": "D",
     "design_ref": "DESIGN.md section 5, C15",
     "technique": "exhaustive enumeration of Spinner.run histories (function shape x firing time relative to the timeout x leftovers x signal handlers x 1-3 runs per Spinner) on the real SelectReactor under a virtual clock; tie order of simultaneous calls and the instant of an external interrupt are chooser choice points explored by stateless DFS; timeline reference model",
-    "level_text": "Every 1- and 2-run history over 15 function shapes (return/raise/Deferred firing or failing before, at, after the timeout or never/stop requested by the function/re-entry) x 5 leftover shapes x clear_junk or not, and every 3-run history over a reduced alphabet, is executed on one Spinner with every tie order and every interrupt instant (<=1 per run); result, exception type, junk accounting, reactor cleanliness, reactor.stop identity and the three signal handlers are checked against the model after every run.",
+    "level_text": "Every 1- and 2-run history over 16 function shapes (return/raise/Deferred firing or failing before, at, after the timeout or never/stop requested by the function/re-entry) x 5 leftover shapes x clear_junk or not, and every 3-run history over a reduced alphabet, is executed on one Spinner with every tie order and every interrupt instant (<=1 per run); result, exception type, junk accounting, reactor cleanliness, reactor.stop identity and the three signal handlers are checked against the model after every run.",
     "level_note": "The real reactor code runs on a virtual clock (seconds()/doIteration() overridden): the installed wall-clock global reactor is not used because the relative order of 'Deferred fires' and 'timeout fires' could not be owned there. Interrupts are delivered between reactor iterations (every distinct instant), not between two calls due at the same instant.",
 }
 
@@ -47,7 +47,7 @@ SIGNAL_CONFIGS = {
 }
 
 KINDS = (
-    [("ret",), ("raise",), ("never",), ("reenter",)]
+    [("ret",), ("raise",), ("never",), ("reenter",), ("reenter_survived",)]
     + [("fire", d) for d in (0, 1, 2, 3)]
     + [("fail", d) for d in (0, 1, 2, 3)]
     + [("stop", d) for d in (1, 2, 3)]
@@ -103,6 +103,18 @@ def make_function(reactor, spinner, spec, rec, run_index):
             return defer.Deferred()
         if k == "reenter":
             return spinner.run(TIMEOUT, lambda: None)
+        if k == "reenter_survived":
+            # re-entrant use is refused every time, also after a refusal was caught
+            rec.reenter = []
+            for attempt in range(3):
+                try:
+                    spinner.run(TIMEOUT, lambda: "inner")
+                    rec.reenter.append("ran")
+                except ReentryError:
+                    rec.reenter.append("refused")
+                except BaseException as e:
+                    rec.reenter.append("raised %s" % type(e).__name__)
+            return ("value", run_index)
         if k == "fire":
             if kind[1] == 0:
                 return defer.succeed(("value", run_index))
@@ -131,7 +143,7 @@ def model_outcomes(spec, run_index, interrupt_at):
     val = ("value", ("value", run_index))
     err = ("raised", "FnError", "run%d" % run_index)
     events = []  # (time, order-class, outcome); order-class 1 = between instants
-    if k == "ret":
+    if k in ("ret", "reenter_survived"):
         return {val}
     if k == "raise":
         return {err}
@@ -215,6 +227,8 @@ def execute(scenario, chooser):
                     elif idx > 0 and o[0] == "raised" and o[1] == "FnError" and o[2] != "run%d" % idx:
                         clause = "stale-result"
                     problems.append((clause, "%s (interrupt at %r): run() gave %r, model allows %r" % (where, interrupt_at, o, sorted(allowed, key=repr))))
+                if getattr(rec, "reenter", None) not in (None, ["refused"] * 3):
+                    problems.append(("reentry", "%s: re-entrant calls inside the function were %r, expected three refusals" % (where, rec.reenter)))
                 # leftovers: every call the function scheduled either ran or was cancelled and reported as junk
                 junk = spinner.get_junk()
                 for c in rec.calls:
